@@ -730,6 +730,57 @@ def flatten_orders(ctx, rule="RF"):
                   bad=("%s: the element order differs from the C-order flattenings / reshapes of the same points elsewhere" % bad[0]) if bad else "", line=bad[1] if bad else None)
 
 
+class _Sentinel:
+    kind, data, line = "end", (), None
+
+
+def aliased_results(ctx, rule="RX"):
+    """Two cooperating sites: a package function that returns the SAME object at two positions of its result (`return a, a, b` - one name
+    twice in one return statement) and a caller that modifies one of those positions in place (`x *= f`, `x += ...` on the unpacked element)
+    and reads the other afterwards.  Each site looks right alone; together the second element has silently been modified as well."""
+    import ast
+    twins = {}          # callee -> {(i, j)} positions that are one object on some return statement
+    for q, f in ctx.pkg.functions.items():
+        for node in ast.walk(f.node):
+            if isinstance(node, ast.Return) and isinstance(node.value, ast.Tuple):
+                names = [(k, e.id) for k, e in enumerate(node.value.elts) if isinstance(e, ast.Name)]
+                for a in range(len(names)):
+                    for b in range(a + 1, len(names)):
+                        if names[a][1] == names[b][1] and names[a][1] not in f.params:
+                            twins.setdefault(q, set()).add((names[a][0], names[b][0]))
+    for qn in scope(ctx):
+        fa = ctx.an.fa(qn)
+        if not fa.ok:
+            continue
+        bad = None
+        for fx in ([fa] + list(fa.nested.values())) if twins else []:
+            for p in fx.paths:
+                touched = []        # (call term, position modified in place)
+                last = _Sentinel()
+                for e in list(p.events) + [last]:
+                    if e.kind == "aug":
+                        tgt = e.data[0]
+                        if tgt[0] == "sub" and tgt[1][0] == "call" and callee(tgt[1]) in twins and is_const(tgt[2]) and isinstance(tgt[2][1], int):
+                            touched.append((tgt[1], tgt[2][1], e.line))
+                            continue
+                    if not touched:
+                        continue
+                    datas = [d for d in e.data if isinstance(d, tuple)]
+                    if e is last and isinstance(p.value, tuple):
+                        datas.append(p.value)
+                    for call_t, i, line in touched:
+                        for (a, b) in twins[callee(call_t)]:
+                            other = b if i == a else (a if i == b else None)
+                            if other is None:
+                                continue
+                            ot = ("sub", call_t, const(other))
+                            if any(x == ot for d in datas for x in walk(d) if isinstance(x, tuple)):
+                                bad = bad or ("%s can return one and the same array at positions %d and %d; position %d is modified in place here and position %d is read afterwards"
+                                              % (callee(call_t).rsplit(".", 1)[1], a, b, i, other), line)
+        ctx.check(rule, qn + "|no-in-place-update-of-a-result-that-is-returned-twice", False if bad else True, "no element of a callee's result is modified in place while the callee may return the same object at another position",
+                  fn=qn, nontrivial=False, bad=bad[0] if bad else "", line=bad[1] if bad else None)
+
+
 def late_binding_closures(ctx, rule="RL"):
     """A lambda / nested function created once per iteration of a comprehension or loop, whose body reads the iteration variable as a free
     variable and which is kept as an element of the container being built (dict / list / set value) or appended to one, sees the LAST value
@@ -871,6 +922,17 @@ def falsy_defaults(ctx, rule="RZ"):
                         nm, entry = first[1], docs.get(first[1].lstrip("*"))
                     elif Q.is_self_attr(first):
                         nm, entry = "self." + first[2], cdocs.get(first[2])
+                    elif first[0] == "sub" and is_const(first[2]):
+                        # an ELEMENT of a numeric-or-tuple parameter (`pad_north, pad_east = pad` ... `pad_east or pad_north`): (5, 0) is legal
+                        root = first
+                        while root[0] == "sub":
+                            root = root[1]
+                        if root[0] in ("tuple", "list"):
+                            ps_ = {x for x in walk(root) if isinstance(x, tuple) and x and x[0] == "param"}
+                            root = next(iter(ps_)) if len(ps_) == 1 else root
+                        if root[0] != "param":
+                            continue
+                        nm, entry = "%s[%s]" % (root[1], first[2][1]), docs.get(root[1].lstrip("*"))
                     else:
                         continue
                     if entry and re.search(r"\b(float|int|integer|number|scalar)\b", entry.split("\n")[0]) and not (is_const(x[2][1]) and x[2][1][1] in (0, 0.0, False)):
